@@ -669,7 +669,7 @@ KiJudge(h, K, e) ==
       obs(D) == KiObsOK(h, J, e, D)
   IN IF e.op = "reload" /\ K.flt # <<>>
      THEN LET judged == FlipJudged(KiRegions(h, K, K.flt[1]), K.flt[2])
-              gone   == \A k \in DOMAIN h.keys : KiBucket(h, k) = K.flt[1] => e.obs.look[k] = "none"
+              gone   == e.obs.unknown = 0 /\ \A k \in DOMAIN h.keys : KiBucket(h, k) = K.flt[1] => e.obs.look[k] = "none"
           IN IF "panic" \in DOMAIN e.obs \/ e.res = "panic" THEN [ok |-> FALSE, devs |-> {}]
              ELSE IF ~judged \/ e.res # "ok" \/ gone THEN [ok |-> TRUE, devs |-> {}]
              ELSE [ok |-> "FX08j" \in KnownDeviations, devs |-> {"FX08j"}]
